@@ -1,5 +1,6 @@
 SP='spanner_prober/prober/proberlib.go'; SI='spanner_prober/prober/interceptors.go'; SM='spanner_prober/main.go'; E2E='e2e-checksum/main.go'; G='grpcgcp/gcp_multiendpoint.go'; I='grpcgcp/gcp_interceptor.go'; B='grpcgcp/gcp_balancer.go'; P='grpcgcp/gcp_picker.go'; M='grpcgcp/multiendpoint/multiendpoint.go'
 MUT={
+ 'c01-bind-window': [(P,'''					p.gb.bindSubConnRef(bk, scRef)''','''					p.gb.bindSubConn(bk, p.gb.getSubConn(scRef))''')],
  'c01-bind-overwrite': [(B,'''	if !ok {
 		gb.affinityMap[bindKey] = sc
 	}''','''	gb.affinityMap[bindKey] = sc
